@@ -117,10 +117,12 @@ pub struct CountingCutoff {
     /// safety net against non-termination of the code under test: stop after this many polls (0 = none) and say so
     pub watchdog: usize,
     pub dog: AtomicBool,
+    /// the criterion no longer asks to stop (the budget was renewed): the watchdog stays armed
+    pub released: AtomicBool,
 }
 impl CountingCutoff {
     pub fn new(at: usize) -> Self {
-        CountingCutoff { polls: AtomicUsize::new(0), at, flag: Arc::new(AtomicBool::new(false)), log: false, watchdog: 0, dog: AtomicBool::new(false) }
+        CountingCutoff { polls: AtomicUsize::new(0), at, flag: Arc::new(AtomicBool::new(false)), log: false, watchdog: 0, dog: AtomicBool::new(false), released: AtomicBool::new(false) }
     }
 }
 impl Cutoff for CountingCutoff {
@@ -130,7 +132,7 @@ impl Cutoff for CountingCutoff {
             self.dog.store(true, SeqCst);
             return true;
         }
-        let stop = (self.at != 0 && k >= self.at) || self.flag.load(SeqCst);
+        let stop = !self.released.load(SeqCst) && ((self.at != 0 && k >= self.at) || self.flag.load(SeqCst));
         if self.log {
             emit(json!({"ev":"poll","k":k,"stop":stop}));
         }
